@@ -32,7 +32,7 @@ FLOORS = {'extractions': 300, 'focus_evaluations': 1000, 'depth2_focus': 50,
           'wide_range_evaluations': 40, 'changes_before_extraction': 100,
           'extractions_before_build_code': 30,
           'chained_extraction_evaluations': 40,
-          'one_shot_focus_iterables': 50}
+          'one_shot_focus_iterables': 50, 'spelling_extractions': 40}
 ANCHOR_FUNCS = {'xlcalculator/model.py': ['ModelCompiler.extract']}
 TIMEOUT = {'quick': 600, 'thorough': 3000}
 
@@ -289,9 +289,105 @@ def run_chained(ctx):
                      monitor='extract-raises', group='chained-raises')
 
 
+def run_spellings(ctx):
+    """the same thing spelt differently in different formulas of one workbook:
+    a defined name in another letter case than its definition, the same
+    formula text on several sheets (unqualified references mean the sheet of
+    the formula), a sheet name in another case.  However the full model reads
+    a spelling, the extract reads it the same way: for every focus set, every
+    focused cell evaluates to the same outcome in both, before and after input
+    changes"""
+    import os
+    from vlib import bootstrap, xlsxw
+    from xlcalculator import Evaluator, ModelCompiler
+    rng = ctx.rng
+    out = os.path.join(bootstrap.VERIF, 'out', 'c13')
+    os.makedirs(out, exist_ok=True)
+    books = []
+    # (a) names in other letter case
+    sb = xlsxw.SheetBuilder()
+    sb.put_value('Calc', 1, 1, 100)
+    sb.put_value('Calc', 2, 1, 7)
+    sb.put_value('Rates', 1, 1, 0.2)
+    sb.put_value('Rates', 1, 2, 5)
+    sb.names = [('Rate', 'Rates!$A$1'), ('Bonus', 'Rates!$A$2')]
+    for i, f in enumerate(['=A1*Rate', '=A1*rate', '=B1*RATE+Bonus', '=A3+A4',
+                           '=A1*Rate+bonus', '=SUM(A3:A7)+BONUS'], start=3):
+        sb.put_formula('Calc', 1, i, f)
+    books.append(('names in another letter case', sb,
+                  [f'Calc!A{i}' for i in range(3, 9)],
+                  ['Calc!A1', 'Calc!B1', 'Rates!A1', 'Rates!A2']))
+    # (b) the same formula texts on sheets laid out alike
+    sb = xlsxw.SheetBuilder()
+    focus_b, inputs_b = [], []
+    for n, sh_ in enumerate(('Q1', 'Q2', 'Q3', 'Plan')):
+        for r in (2, 3, 4):
+            sb.put_value(sh_, 2, r, (n + 1) * r)
+            sb.put_value(sh_, 3, r, 10 + n + r)
+            sb.put_formula(sh_, 4, r, f'=B{r}*C{r}')
+            inputs_b += [f'{sh_}!B{r}', f'{sh_}!C{r}']
+        sb.put_formula(sh_, 4, 5, '=D2+D3+D4')
+        sb.put_formula(sh_, 4, 6, '=SUM(D2:D4)-D5')
+        focus_b += [f'{sh_}!D5', f'{sh_}!D6', f'{sh_}!D3']
+    sb.put_formula('Year', 1, 1, '=Q1!D5+Q2!D5+Q3!D5')
+    focus_b.append('Year!A1')
+    books.append(('same formula text on several sheets', sb, focus_b,
+                  inputs_b))
+    for label, sb, focus_cells, inputs in books:
+        path = os.path.join(out, f'spell{ctx.shard}.xlsx')
+        sb.write(path)
+        try:
+            original = ModelCompiler().read_and_parse_archive(path)
+        finally:
+            try:
+                os.remove(path)
+            except OSError:
+                pass
+        sets_ = [[c] for c in focus_cells] + [
+            rng.sample(focus_cells, 2) for _ in range(4)] + [focus_cells]
+        for focus in sets_:
+            ctx.event('extractions')
+            ctx.event('spelling_extractions')
+            ctx.case(('spellings', label, tuple(focus)))
+            try:
+                extracted = ModelCompiler.extract(original, focus)
+            except Exception as e:  # noqa
+                ctx.fail(f'extract(focus={focus}) from the workbook "{label}" '
+                         f'raised {type(e).__name__}: {str(e)[:160]}',
+                         {'focus': focus, 'workbook': label},
+                         monitor='extract-raises', group='spellings-raises')
+                continue
+            ev_o, ev_x = Evaluator(original), Evaluator(extracted)
+            for step in range(3):
+                if step:
+                    a = rng.choice(inputs)
+                    v = rng.choice([3, 11, 0.5, 40])
+                    ev_o.set_cell_value(a, v)
+                    if a in extracted.cells:
+                        ev_x.set_cell_value(a, v)
+                bad = []
+                for c in focus:
+                    go = subject.outcome_of(lambda: ev_o.evaluate(c))
+                    gx = subject.outcome_of(lambda: ev_x.evaluate(c))
+                    ctx.event('focus_evaluations')
+                    if go != gx:
+                        bad.append((c, go, gx))
+                if bad:
+                    ctx.fail(f'workbook "{label}", focus {focus}, after {step} '
+                             f'input changes: (cell, original, extracted) = '
+                             f'{bad[:3]}',
+                             {'workbook': label, 'focus': focus,
+                              'differences': bad[:8]},
+                             monitor='same-values',
+                             group='spellings:' + label[:12])
+                    break
+
+
 def run(ctx):
     from xlcalculator import Evaluator, ModelCompiler
     rng = ctx.rng
+    if ctx.shard in (4, 8) or ctx.tier == 'thorough':
+        run_spellings(ctx)
     if ctx.shard in (1, 5, 9, 13) or ctx.tier == 'thorough':
         run_chained(ctx)
     if ctx.shard in (2, 6) or ctx.tier == 'thorough':
